@@ -106,10 +106,10 @@ def replay_file(path):
         ce = rec.get("counterexample", {}).get("inputs")
         ok = False
         if ce:
-            ok, detail = hook.native_replay(rec["job"].split("@")[0], ce, bdir)
+            ok, detail = hook.native_replay(rec["job"].split("@")[0].split("+")[0], ce, bdir)
             print(json.dumps(detail)[:1500])
         if not ok:
-            ok, detail = hook.native_sweep(rec["job"].split("@")[0], bdir)
+            ok, detail = hook.native_sweep(rec["job"].split("@")[0].split("+")[0], bdir)
             print(json.dumps(detail)[:1500])
         print("REPRODUCED on the real code" if ok else "not reproduced on the current tree")
         return 1 if ok else 0
